@@ -37,3 +37,20 @@ Definition cert_case (c : tcase) : list nat :=
 
 Definition cert_cases (cs : list (nat * tcase)) : list (nat * list nat) :=
   flat_map (fun p => match cert_case (snd p) with [] => [] | l => [(fst p, l)] end) cs.
+
+(* unit correspondence for the whole network-simplex layering (unit function 3): the model's phase 2 on the
+   synthetic component must give the implementation's layers; for the disagreeing cases the model's certified
+   optimum is printed so that the harness can tell whether the implementation's layering is longer *)
+Definition unit_ns_check (before after : graph) : bool :=
+  match phase2 NetworkSimplex (mkNsParams 28 0 1) before with
+  | Ok m => forall2b node_eqb_layer (g_na m) (g_na after)
+  | Err _ => false
+  end.
+
+Definition unit_ns_failing (cs : list (nat * (nat * graph * graph))) : list (nat * Z * bool) :=
+  flat_map (fun c => let '(i, (fn, b, a)) := c in
+                     if unit_ns_check b a then [] else
+                     match ns_core (mkNsParams 28 0 1) b with
+                     | Ok (g, capped) => [(i, total_length (layer_of g) g, cert_ok g && negb capped)]
+                     | Err _ => [(i, (-1)%Z, false)]
+                     end) cs.
